@@ -23,7 +23,7 @@ pid = sys.argv[1]
 sub = sys.argv[2] if len(sys.argv) > 2 else "_out"      # output directory of the sub-agent inside its worktree
 offset = int(sys.argv[3]) if len(sys.argv) > 3 else 0    # numbering offset of the stored ids (second wave: 6)
 src = f"/tmp/seed/{pid}/{sub}"
-for k in range(1, 8):
+for k in range(1, 8):  # up to 7 per round
     p = os.path.join(src, f"patch_{k}.diff")
     if not os.path.exists(p) or os.path.getsize(p) == 0:
         continue
